@@ -179,7 +179,7 @@ def write_replay(pid: str, obj: Dict[str, Any]) -> str:
 
 def repo_head() -> str:
     try:
-        return subprocess.run(["git", "-C", "/repo", "rev-parse", "--short", "HEAD"], capture_output=True,
+        return subprocess.run(["git", "-C", os.environ.get("RGV_REPO", "/repo"), "rev-parse", "--short", "HEAD"], capture_output=True,
                               text=True).stdout.strip()
     except Exception:
         return "?"
